@@ -396,7 +396,7 @@ fn own(reason: &str, prop: &str) -> bool {
 }
 
 pub fn run(ctx: &Ctx, rep: &mut Report) {
-    let total = ctx.universes(1600, 160000);
+    let total = ctx.universes(2400, 200000);
     let per_universe = 26;
     let mut seen_classes = std::collections::BTreeSet::new();
     for uni in ctx.my_universes(total) {
